@@ -129,14 +129,14 @@ pub fn run(ctx: &'static Ctx) {
         for c in t.ctors(0) {
             let d = seq::depth_for(t, &c, level, if quick { 8_000 } else { 200_000 }, 3);
             let (nodes, leaves) = seq::dfs(ctx, t, &c, level, d, &|v: &Visit| {
-                sink_matrix(ctx, t.name(), v.live, &|| seq::replay_json(v.table, v.ctor, v.ops));
+                sink_matrix(ctx, t.name(), v.live, &|| seq::replay_json(v.table, v.ctor, v.all_ops));
             });
             rep.push(json!({"table": t.name(), "depth": d, "states": nodes, "executions": leaves}));
         }
         // one long lane per table as well (a big object exercises the chunking differently)
         let c0 = t.ctors(0)[0];
         for l in seq::lane_set(t, &c0, 300, false).into_iter().take(3) {
-            seq::run_lane(ctx, t, &c0, &l, &|k| (k == l.ops.len() || k % 97 == 0, false), &|v| sink_matrix(ctx, t.name(), v.live, &|| seq::lane_replay(v.table, v.ctor, &l.name, v.ops)));
+            seq::run_lane(ctx, t, &c0, &l, &|k| (k == l.ops.len() || k % 97 == 0, false), &|v| sink_matrix(ctx, t.name(), v.live, &|| seq::lane_replay(v.table, v.ctor, &l.name, v.all_ops)));
         }
     }
     ctx.engine("E2.table-states", json!(rep));
